@@ -407,6 +407,62 @@ func (w *World) elemPostsOf(g *ssa.Function) []elemPost {
 	return cands
 }
 
+// exportedNameTable: v is the value of a package-level []string that only its initialiser writes, every element an exported name.
+func exportedNameTable(v ssa.Value) bool {
+	ld, isLd := v.(*ssa.UnOp)
+	if !isLd || ld.Op != token.MUL {
+		return false
+	}
+	g, isG := ld.X.(*ssa.Global)
+	if !isG || g.Pkg == nil {
+		return false
+	}
+	t := constTablesOf(g.Pkg)[g]
+	if t == nil || !t.isSlice || int64(len(t.vals)) != t.length || t.length == 0 {
+		return false
+	}
+	for _, e := range t.vals {
+		c, isC := e.(*ssa.Const)
+		if !isC || c.Value == nil || c.Value.Kind() != constant.String {
+			return false
+		}
+		name := constant.StringVal(c.Value)
+		if name == "" || name[0] < 'A' || name[0] > 'Z' {
+			return false
+		}
+	}
+	return true
+}
+
+// kindTableSet: v is the value of a package-level []reflect.Kind that only its initialiser writes; the set of its elements.
+func kindTableSet(v ssa.Value) (uint64, bool) {
+	ld, isLd := v.(*ssa.UnOp)
+	if !isLd || ld.Op != token.MUL {
+		return 0, false
+	}
+	g, isG := ld.X.(*ssa.Global)
+	if !isG || g.Pkg == nil {
+		return 0, false
+	}
+	t := constTablesOf(g.Pkg)[g]
+	if t == nil || !t.isSlice || int64(len(t.vals)) != t.length {
+		return 0, false
+	}
+	var set uint64
+	for _, e := range t.vals {
+		c, isC := e.(*ssa.Const)
+		if !isC || c.Value == nil || c.Value.Kind() != constant.Int {
+			return 0, false
+		}
+		n, exact := constant.Int64Val(c.Value)
+		if !exact || n < 0 || n >= 64 {
+			return 0, false
+		}
+		set |= 1 << uint(n)
+	}
+	return set, true
+}
+
 // ---- canonical keys ---------------------------------------------------------
 
 // pureCallName returns a name for calls whose result depends only on their
@@ -944,6 +1000,19 @@ func (lg *ledger) kindFact(cond ssa.Value, truth bool, subject ssa.Value, isType
 						}
 						return ^uint64(0) &^ set, true
 					}
+				}
+			}
+		}
+	}
+	// slices.Contains(table, Kind(v)) for a constant table []reflect.Kind
+	if call, isCall := cond.(*ssa.Call); isCall && !isType && len(call.Call.Args) == 2 {
+		if pkg, name := staticCalleeName(call); pkg == "slices" && name == "Contains" {
+			if set, ok := kindTableSet(call.Call.Args[0]); ok {
+				if recv, _, ok := reflectValueCall(call.Call.Args[1], "Kind"); ok && lg.key(recv) == lg.key(subject) {
+					if truth {
+						return set, true
+					}
+					return ^uint64(0) &^ set, true
 				}
 			}
 		}
@@ -1758,6 +1827,14 @@ func (lg *ledger) mayBeReadOnly(v ssa.Value, depth int) bool {
 				name := constant.StringVal(c.Value)
 				if name != "" && name[0] >= 'A' && name[0] <= 'Z' {
 					return lg.mayBeReadOnly(recv, depth+1)
+				}
+			}
+			// a name taken from a constant table of exported names: for _, name := range idFields { v.FieldByName(name) }
+			if ld, isLd := args[0].(*ssa.UnOp); isLd && ld.Op == token.MUL {
+				if ia, isIA := ld.X.(*ssa.IndexAddr); isIA {
+					if exportedNameTable(ia.X) {
+						return lg.mayBeReadOnly(recv, depth+1)
+					}
 				}
 			}
 			return true
